@@ -101,6 +101,22 @@ const c13JSThrow = `{"parser_settings": {"version": "omni.2.1", "file_format_typ
 const c13JSThrowLastInput = `<root><rec id="1"><code>k1</code><s>s1</s></rec><rec id="2"><s>s2</s></rec><rec id="3"><code>BAD-secret</code><s>s9</s></rec><rec id="4"><s>s3</s></rec></root>`
 const c13JSThrowInput = `<root><rec id="1"><code>k1</code><s>s1</s></rec><rec id="2"><code>BAD-secret</code><s>s2</s></rec><rec id="3"><s>s3</s></rec><rec id="4"><code>BAD-ctx</code><s>s4</s></rec><rec id="5"><s>s5</s></rec><rec id="6"><code>k6</code></rec></root>`
 
+// two declarations that differ only in ignore_error, evaluated on the same node: the lenient one first (fqdn order)
+const c13IETwin = `{"parser_settings": {"version": "omni.2.1", "file_format_type": "xml"},
+ "transform_declarations": {"FINAL_OUTPUT": {"xpath": "/root/rec", "object": {
+   "a_lenient": {"custom_func": {"name": "javascript", "args": [{"const": "if (v == 'bad') { throw 'bad v' }; v + '!'"}, {"const": "v"}, {"xpath": "v"}], "ignore_error": true}},
+   "b_strict": {"custom_func": {"name": "javascript", "args": [{"const": "if (v == 'bad') { throw 'bad v' }; v + '!'"}, {"const": "v"}, {"xpath": "v"}]}},
+   "c_list": {"array": [
+      {"custom_func": {"name": "dateTimeToRFC3339", "args": [{"xpath": "d"}, {"const": ""}, {"const": ""}], "ignore_error": true}},
+      {"custom_func": {"name": "dateTimeToRFC3339", "args": [{"xpath": "d"}, {"const": ""}, {"const": ""}]}}]}}}}}`
+const c13IETwinInput = `<root><rec><v>one</v><d>2020-01-02</d></rec><rec><v>bad</v><d>2020-01-03</d></rec><rec><v>three</v><d>nodate</d></rec><rec><v>four</v><d>2020-01-05</d></rec></root>`
+
+// one namespace URI under two prefixes that are in scope at the same time: which of them a node reports is a choice,
+// but it must be the same choice every time (results and checksums are functions of the input)
+const c13TwoPrefixes = `{"parser_settings": {"version": "omni.2.1", "file_format_type": "xml"},
+ "transform_declarations": {"FINAL_OUTPUT": {"xpath": "/root/*", "object": {"a_id": {"xpath": "a:id"}, "b_id": {"xpath": "b:id"}, "all": {"custom_func": {"name": "copy"}}}}}}`
+const c13TwoPrefixesInput = `<root xmlns:a="urn:same" xmlns:b="urn:same" xmlns="urn:same"><a:rec><a:id>1</a:id><b:v>x</b:v><w>d</w></a:rec><b:rec><b:id>2</b:id><a:v a:k="1">y</a:v></b:rec><rec><id>3</id><a:id>3a</a:id><b:id>3b</b:id></rec><a:rec><b:id>4</b:id></a:rec><b:rec><a:id>5</a:id></b:rec><a:rec><a:id>6</a:id><b:id>6</b:id></a:rec></root>`
+
 func c13Corpus() ([]*corpusItem, error) {
 	items, err := multiRunCorpus(false)
 	if err != nil {
@@ -111,6 +127,8 @@ func c13Corpus() ([]*corpusItem, error) {
 		{Name: "c13/js-on-record", Format: "xml", Schema: []byte(c13JSRecord), Input: []byte(c13JSRecordInput)},
 		{Name: "c13/js-on-ancestor", Format: "xml", Schema: []byte(c13JSAncestor), Input: []byte(c13JSRecordInput)},
 		{Name: "c13/js-throw-then-probe", Format: "xml", Schema: []byte(c13JSThrow), Input: []byte(c13JSThrowInput)},
+		{Name: "c13/ignore-error-twin", Format: "xml", Schema: []byte(c13IETwin), Input: []byte(c13IETwinInput)},
+		{Name: "c13/xml-two-prefixes-one-uri", Format: "xml", Schema: []byte(c13TwoPrefixes), Input: []byte(c13TwoPrefixesInput)},
 		{Name: "c13/js-throw-last", Format: "xml", Schema: []byte(c13JSThrow), Input: []byte(c13JSThrowLastInput)},
 		{Name: "c13/ancestor-anchored-with-failing-records", Format: "xml", Schema: []byte(c13Ancestor), Input: []byte(c13AncestorInput)},
 	}
